@@ -41,6 +41,8 @@ def run(tier, seed):
         import random
         beh = random.Random(seed).sample(beh, 60000)
     jobs = [(b, scenario(b)) for b in beh]
+    # the same histories with the exit event left to persist() itself (exit_event=None): every 5th behaviour
+    jobs += [(b, dict(scenario(b), exit_event='default')) for i, b in enumerate(beh) if i % 5 == 0]
     # one long chain: far more consecutive failures than any double-precision exponent can take
     n_long = 1100
     long_b = {"w": {"min": 1, "max": 60}, "names": [["connecting", "connect_fail"]] * n_long,
